@@ -169,6 +169,8 @@ def main(tier, seed):
                 tooltier.add_docs(prog, rng)
             if i % 5 == 3:
                 tooltier.rename_variants(prog, rng)
+            if i % 6 == 1:
+                tooltier.underscore_fields(prog, rng)
             ncfg = tooltier.add_cfgs(prog, rng) if i % 4 == 2 else 0
             emit_rust.assign_abi_names(prog)
             d = toolrun.fresh_dir(toolrun.workdir("c09", "p%d_%s" % (i, b)))
